@@ -27,7 +27,7 @@ impl Property for C12 {
         "C12"
     }
     fn rule(&self) -> &'static str {
-        "anchor: external check value 0x0376E6E7 of '123456789'; bytepos: for a seeded random message (label length 0/3/6) every byte position of total length, protocol type, label and the first 64 PDU bytes takes all 256 values (each value selects a distinct table index at that position) and DefaultCrc is compared with a bit-serial reference; lengths: PDU lengths from the size lattice up to 65535; random: seeded messages, one in four crafted so that the running CRC register is exactly zero at a field boundary or inside the PDU (all-ones total length and type; a label or PDU stretch equal to the register reached before it), one in three summed a second time after the same buffer was modified in place; sender/receiver: fragment trains built by the real encapsulator (half of them after a label-memory pre-history: re-use limit just reached, or re-use disabled after traffic with the same label; one in three through encap_ext with an extension chain, incl. re-use substituted first fragments) with a recording CrcCalculator on both sides, trailer compared with the reference, receiver accepts iff trailer == reference (also when its label memory is reset between two fragments); rx-handmade: hand-made trains sealed conformantly or with the wrong label rule (explicit label sealed as if re-used, re-use fragment sealed with the full label). Non-trivial = the reference and the crate both produced a value and were compared; fingerprint = hash of the full CRC input (or of the train)."
+        "anchor: external check value 0x0376E6E7 of '123456789'; bytepos: for a seeded random message (label length 0/3/6) every byte position of total length, protocol type, label and the first 64 PDU bytes takes all 256 values (each value selects a distinct table index at that position) and DefaultCrc is compared with a bit-serial reference; lengths: PDU lengths from the size lattice up to 65535, each also as a sub-slice starting 1..=8 bytes into a larger buffer; random: seeded messages, one in four crafted so that the running CRC register is exactly zero at a field boundary or inside the PDU (all-ones total length and type; a label or PDU stretch equal to the register reached before it), one in three summed a second time after the same buffer was modified in place; sender/receiver: fragment trains built by the real encapsulator (half of them after a label-memory pre-history: re-use limit just reached, or re-use disabled after traffic with the same label; one in three through encap_ext with an extension chain, incl. re-use substituted first fragments) with a recording CrcCalculator on both sides, trailer compared with the reference, receiver accepts iff trailer == reference (also when its label memory is reset between two fragments); rx-handmade: hand-made trains sealed conformantly or with the wrong label rule (explicit label sealed as if re-used, re-use fragment sealed with the full label). Non-trivial = the reference and the crate both produced a value and were compared; fingerprint = hash of the full CRC input (or of the train)."
     }
     fn gens(&self, cx: &Cx) -> Vec<Gen> {
         vec![
@@ -122,6 +122,26 @@ impl Property for C12 {
                             Ok(got) if got == want => rep.nontrivial(mix(mix(plen as u64, ll as u64), class as u64 + 77)),
                             Ok(got) => rep.violation("C12", format!("value-mismatch:lengths:label{}", ll), || format!("DefaultCrc != reference for pdu_len {} label_len {} total {:#06x} type {:#06x}: got {:#010x} want {:#010x}", plen, ll, total, pt, got, want), replay),
                             Err(p) => rep.violation("C12", "crc-panic".into(), || format!("DefaultCrc panicked (pdu_len {}): {}", plen, p), replay),
+                        }
+                        // the same PDU as a sub-slice of a larger buffer, at every offset 1..=8 (a PDU inside a frame
+                        // does not start on a word boundary)
+                        if class == 0 {
+                            let mut big = vec![0xA5u8; plen + 16];
+                            for off in 1..=8usize {
+                                big[off..off + plen].copy_from_slice(&pdu);
+                                rep.eval();
+                                match crate_crc(&big[off..off + plen], pt, total, &label) {
+                                    Ok(got) if got == want => {}
+                                    Ok(got) => {
+                                        rep.violation("C12", format!("value-mismatch:lengths:unaligned-slice:label{}", ll), || format!("DefaultCrc != reference for a PDU of {} bytes that starts {} bytes into a larger buffer (label_len {}): got {:#010x} want {:#010x}", plen, off, ll, got, want), replay);
+                                        break;
+                                    }
+                                    Err(p) => {
+                                        rep.violation("C12", "crc-panic".into(), || format!("DefaultCrc panicked (pdu_len {}, offset {}): {}", plen, off, p), replay);
+                                        break;
+                                    }
+                                }
+                            }
                         }
                     }
                 }
